@@ -1,2 +1,2 @@
 (* All.v - everything the extracted runner needs *)
-Require Export RP.Glue.Wire RP.Glue.StreamEV RP.Glue.StreamDEC RP.Glue.StreamFrame RP.Glue.StreamPacket RP.Glue.StreamLink RP.Glue.StreamProto.
+Require Export RP.Glue.Wire RP.Glue.StreamEV RP.Glue.StreamDEC RP.Glue.StreamFrame RP.Glue.StreamPacket RP.Glue.StreamLink RP.Glue.StreamProto RP.Glue.StreamE2E.
